@@ -77,6 +77,7 @@ class Block:
         self.addparams = []
         self.loopstart = {}
         self.loopend = {}       # anchors of statements to drop (logged)
+        self.shape = None       # R36: fingerprint of what the positional directives (loop N / loopstart / loopend / stmt K) were written against
 
 
 def parse_template(path):
@@ -183,6 +184,8 @@ def parse_template(path):
             cur.selectarm = BT.findall(rest)[0]
         elif word == 'addparam':
             cur.addparams.append(rest.strip())
+        elif word == 'shape':
+            cur.shape = rest.strip()
         elif word == 'stmt':
             section = cur.stmts.setdefault(int(rest.split()[0]), [])
         elif word == 'loopstart':
@@ -547,6 +550,28 @@ def extract_fn(repo, blk, meta, mode):
                 add_insert(starts[n], lines, 'proof')
             except IndexError:
                 raise X.LostAnchor('%s::%s: statement #%d not found (%d statements)' % (rel, kv['name'], n, len(starts)))
+    # R36 shape guard: positional proof hints are placed by ordinal; they are only meaningful on the statement / loop they were written for
+    shape_parts = []
+    if blk.loops or blk.loopstart or blk.loopend:
+        kinds = []
+        for (lk, ob) in loops:
+            kd = body[lk].text
+            nx = X._next_sig(body, lk)
+            if kd == 'while' and nx < len(body) and body[nx].text == 'let':
+                kd = 'whilelet'
+            kinds.append(kd)
+        shape_parts.append('loops=' + ','.join(kinds))
+    if blk.stmts:
+        for n in sorted(blk.stmts):
+            try:
+                k0 = starts[n]
+            except IndexError:
+                continue
+            k1 = X._next_sig(body, k0)
+            shape_parts.append('stmt%d=%s %s' % (n, body[k0].text, body[k1].text if k1 < len(body) else ''))
+    cur_shape = ';'.join(shape_parts)
+    if blk.shape is not None and blk.shape != cur_shape:
+        raise X.LostAnchor('%s::%s: the shape the positional proof hints were written for has changed (was `%s`, is `%s`): loop invariants / proof blocks cannot be placed' % (rel, kv['name'], blk.shape, cur_shape))
     for n, lines in blk.loopstart.items():
         if n >= len(loops) and n in blk.loop_optional:
             continue
@@ -599,7 +624,7 @@ def extract_fn(repo, blk, meta, mode):
     if curline:
         flush(dict(kind='src', fn=name, file=rel, line=cur_src))
     return dict(sig=sigt, body=out, log=log, hash=h, file=rel, line=src_line, name=name,
-                nloops=len(loops), has_canary=bool(canary_pts))
+                nloops=len(loops), has_canary=bool(canary_pts), shape=cur_shape)
 
 
 def extract_type(repo, blk, meta):
